@@ -276,7 +276,32 @@ func runC20(r *Run) {
 }
 
 // detProcessLocalWrites is rule R1 (also run over the positive-control package).
-func detProcessLocalWrites(r *Run, sc *Scopes) {
+// importProcessLocal arms a per-module property with C20 R1 (same detector code) restricted to the module's
+// packages: a ledger value memoised in process memory survives a reverted message / discarded cache context,
+// so the stored ledger and what the keeper serves diverge (and a restarted node disagrees).
+func importProcessLocal(r *Run, rule string, pkgs ...string) {
+	r.Rule(rule, "OWN.state-in-the-multistore (C20 R1's detector restricted to "+strings.Join(pkgs, ", ")+"): consensus-reachable code of the module writes no process-local memory (keeper fields, maps/slices/pointers held by keeper-like types, sync/atomic/cache containers) — module state lives only in the multistore, which is what message atomicity, cache-context discard and restarts act on")
+	sc := scopesOf(r)
+	var abs []string
+	for _, p := range pkgs {
+		abs = append(abs, haqqMod+"/"+p)
+	}
+	r.Import(rule+"/C20.", []string{"R1"}, func(r2 *Run) { detProcessLocalWrites(r2, sc, abs...) })
+}
+
+func detProcessLocalWrites(r *Run, sc *Scopes, onlyPkgs ...string) {
+	inOnly := func(fn *ssa.Function) bool {
+		if len(onlyPkgs) == 0 {
+			return true
+		}
+		pp := fnPkgPath(fn)
+		for _, p := range onlyPkgs {
+			if pp == p || strings.HasPrefix(pp, p+"/") {
+				return true
+			}
+		}
+		return false
+	}
 	P := r.P
 	// roots of the held-by closure: every keeper-like named type of the analysed program
 	heldMemo, heldRoots = nil, nil
@@ -293,7 +318,7 @@ func detProcessLocalWrites(r *Run, sc *Scopes) {
 	}
 	n, bad := 0, 0
 	for _, fn := range sc.S.HaqqFuncs() {
-		if isTestSupport(P, fn) || isGeneratedFile(P.FileOf(fnPos(fn))) {
+		if isTestSupport(P, fn) || isGeneratedFile(P.FileOf(fnPos(fn))) || !inOnly(fn) {
 			continue
 		}
 		eachInstr(fn, func(in ssa.Instruction) {
@@ -343,7 +368,7 @@ func detProcessLocalWrites(r *Run, sc *Scopes) {
 	}
 	// concurrent/caching containers held by process-local structs: mutating method calls
 	for _, fn := range sc.S.HaqqFuncs() {
-		if isTestSupport(P, fn) || isGeneratedFile(P.FileOf(fnPos(fn))) {
+		if isTestSupport(P, fn) || isGeneratedFile(P.FileOf(fnPos(fn))) || !inOnly(fn) {
 			continue
 		}
 		eachCall(fn, func(ci CallInfo) {
@@ -394,8 +419,24 @@ func detProcessLocalWrites(r *Run, sc *Scopes) {
 			r.Bad("R1", inst, P.Pos(instrPos(ci.Instr)), "consensus-reachable code mutates an in-memory container ("+ci.Recv+"."+ci.Name+") held by "+strings.TrimPrefix(what, haqqMod+"/")+": a process-local cache that a restarted node or a second replica does not share", sc.S.Chain(fn)...)
 		})
 	}
-	r.Floor("R1", "writes to process-local memory in consensus scope", n, 1)
+	if len(onlyPkgs) == 0 {
+		r.Floor("R1", "writes to process-local memory in consensus scope", n, 1)
+	}
 	if bad == 0 {
-		r.OK("R1", "scope-S", "", fmt.Sprintf("%d write(s) to process-local memory in consensus scope, all tabled", n))
+		nf := 0
+		for _, fn := range sc.S.HaqqFuncs() {
+			if inOnly(fn) {
+				nf++
+			}
+		}
+		scope := "scope-S"
+		if len(onlyPkgs) > 0 {
+			scope = "scope-S∩" + strings.TrimPrefix(strings.Join(onlyPkgs, ","), haqqMod+"/")
+			if nf == 0 {
+				r.Bad("R1", scope, "", "no consensus-reachable function found in the module's packages: the restricted rule would pass vacuously")
+				return
+			}
+		}
+		r.OK("R1", scope, "", fmt.Sprintf("%d consensus-reachable function(s) examined, %d write(s) to process-local memory, all tabled", nf, n))
 	}
 }
